@@ -26,6 +26,12 @@ perf.parallel gate, which aggregates the per-graph results through its own merge
 graph and a further deviation to the gate.  The pool's workers run inline, one at a time, in submission order - thread
 schedules are C09's subject - so all three oracle layers apply unchanged).
 
+Two more legs: "fan-in" (three feeders a,b,c -> v -> w with every weight assignment over {-2,-1,1,2}: the inner node's
+activation crosses the per-node budget from either side, or returns under it, between being queued and being popped; same
+three oracle layers) and "edit histories" (call (write call)+ on one store with the result cache on, the writes going
+through the store's write API - a fresh object, the live object edited in place and passed back, an equal copy of it, or
+apply_deltas; oracle = the same call made cold on a fresh store built from the written content).
+
 Differences from DESIGN.md "C12": the "loose" pop budget is 128 instead of the engine default 10^4 (LOOSE_Q below);
 one more text (all three nodes) and two more config dimensions (slice caps looser than the config value, a second
 active graph); the accumulator is observed too (`t1.defaultdict`), which makes activation values checkable.
@@ -448,6 +454,17 @@ def make_ctx(dev: dict, cache=False, cache_entries: int = 64):
 ARM_NODES = [("s", "seed", None), ("a", "aa", None), ("b", "bb", None), ("c", "cc", None), ("v", "vv", None), ("w", "ww", None)]
 ARM_EDGES = [("s", "a"), ("a", "b"), ("b", "v"), ("s", "c"), ("c", "v"), ("v", "w")]
 ARM_TEXTS = ["seed", "seed and cc"]
+
+# family "fan-in": several seeds feed ONE inner node v over edges of either sign and of magnitude up to 2, and v has a
+# successor w.  The main alphabet (|weight| <= 1, <= 3 edges) lets an accumulator reach the per-node budget only from
+# the positive side and only on a seed; here v's activation crosses the budget from either side - or returns under it -
+# BETWEEN being queued (still under budget) and being popped, and the expansion v->w makes an over-budget expansion
+# observable ("never exceeding its ... per-node budgets", for all graphs incl. negative weights).
+# insertion order (c, a, w, b, v) != id order
+FANIN_NODES = [("c", "cc", None), ("a", "aa", None), ("w", "ww", None), ("b", "bb", None), ("v", "vv", None)]
+FANIN_EDGES = [("a", "v"), ("b", "v"), ("c", "v"), ("v", "w")]
+FANIN_WEIGHTS = (-2.0, -1.0, 1.0, 2.0)
+FANIN_TEXTS = ["aa bb", "aa bb cc", "aa bb vv"]       # two feeders, three feeders, two feeders + v itself a seed
 
 # family "keyword holders": who holds which keyword is enumerated instead of fixed.  Every assignment of a label from a
 # 3-label alphabet (two of them equal up to case) to the three nodes x a tag list on two of them: keywords unique,
@@ -921,6 +938,13 @@ def arm_graphs():
     return out
 
 
+def fanin_graphs():
+    out = []
+    for ws in itertools.product(FANIN_WEIGHTS, repeat=len(FANIN_EDGES)):
+        out.append(tuple((a, b, w, "supports") for (a, b), w in zip(FANIN_EDGES, ws)))
+    return out
+
+
 def _t1_view(res):
     if isinstance(res, Exception):
         return ("exc", type(res).__name__)
@@ -1056,6 +1080,263 @@ def run_history(sc, dev, kind, entries, hist, cold=None, store=None):
     if snap_store(store) != before:
         V.append(("store:modified", "graph store differs after the call history %s (%s cache)%s" % ([list(ACTIVE_ALPHA[i]) for i in hist], kind, where)))
     return V, n_calls, cold
+
+
+# family "edit histories": the graph is a quantified input ("for all graphs") and the stage keeps a process-global result
+# cache, so the graph a call must follow is the one that is in the store NOW, whatever was propagated before.  History =
+# call (write call)+ on one store with the result cache on; the writes go through the store's public write API only
+# (upsert_edges / upsert_nodes / apply_deltas) and are enumerated over WHAT is written (an existing edge re-assigned:
+# same content, weight 0, other relation, other target, [thorough: weight .25, other source]; a new edge; a node
+# relabelled so that it stops / starts being a seed; a tag added) x HOW the caller hands it over:
+#   fresh         a newly constructed Edge/Node with the same id;
+#   inplace       read-modify-write: the live object obtained from get_graph() is edited and passed back to upsert_*;
+#   inplace+copy  the live object is edited and an equal copy of it is passed to upsert_*;
+#   deltas        apply_deltas([{op: upsert_edge, ...}]).
+# An in-place edit that is never written back through the store API is NOT part of the alphabet (the store cannot see
+# it).  Oracle: every call equals the same call made cold (cache off, caches reset) on a FRESH store built from the
+# content the writes assign (upsert = insert or replace by id), on graph_deltas and the six counters.
+EDIT_VIAS_EDGE = ["fresh", "inplace", "inplace+copy", "deltas"]
+EDIT_VIAS_NODE_QUICK = ["fresh", "inplace"]
+EDIT_VIAS_NODE_THOROUGH = ["fresh", "inplace", "inplace+copy"]
+
+
+def edit_alphabet(sc, thorough: bool):
+    """JSON-able writes on graph 'g' of the scene; every write is an absolute assignment relative to the ORIGINAL scene"""
+    _gid, nodes, edges = sc["graphs"][0]
+    ids = sorted(n[0] for n in nodes)
+    W = []
+    if edges:
+        a, b, w, r = edges[0]
+        orig = {"src": a, "dst": b, "weight": w, "rel": r}
+        changes = [{}, {"weight": 0.0}, {"rel": "contradicts" if r != "contradicts" else "supports"},
+                   {"dst": next(x for x in ids if x != b)}]
+        if thorough:
+            changes += [{"weight": 0.25}, {"src": next(x for x in ids if x != a)}]
+        for ch in changes:
+            for via in EDIT_VIAS_EDGE:
+                W.append(["edge", 0, dict(orig, **ch), via])
+    new_edge = {"src": ids[0], "dst": ids[-1], "weight": 1.0, "rel": "supports"}
+    for via in ("fresh", "deltas"):
+        W.append(["edge", len(edges), dict(new_edge), via])
+    seeds = sc["seeds"]["g"]
+    tok = sc["text"].split()[-1].lower()           # a word of the text: whoever holds it becomes a seed
+    unseed = next((n for n in ids if n in seeds), None)
+    toseed = next((n for n in ids if n not in seeds), None)
+    by_id = {n[0]: n for n in nodes}
+    for via in (EDIT_VIAS_NODE_THOROUGH if thorough else EDIT_VIAS_NODE_QUICK):
+        if unseed is not None:
+            W.append(["node", unseed, {"label": "qqq", "tags": None}, via])
+        if toseed is not None:
+            W.append(["node", toseed, {"label": tok, "tags": by_id[toseed][2]}, via])
+            W.append(["node", toseed, {"label": by_id[toseed][1], "tags": list(by_id[toseed][2] or []) + [tok]}, via])
+    return W
+
+
+def model_write(wr, nodes, edges):
+    """the documented meaning of a write on the model content: upsert = insert or replace by id"""
+    nodes, edges = list(nodes), list(edges)
+    if wr[0] == "edge":
+        _k, idx, f, _via = wr
+        tup = (f["src"], f["dst"], f["weight"], f["rel"])
+        if idx < len(edges):
+            edges[idx] = tup
+        else:
+            edges.append(tup)
+    else:
+        _k, nid, f, _via = wr
+        pos = [n[0] for n in nodes].index(nid)
+        nodes[pos] = (nid, f["label"], (list(f["tags"]) if f["tags"] is not None else None))
+    return nodes, edges
+
+
+def store_write(store, gid, wr):
+    """the same write performed on the real store through its public write API"""
+    import dataclasses
+    if wr[0] == "edge":
+        _k, idx, f, via = wr
+        eid = "e%d" % idx
+        if via == "fresh":
+            store.upsert_edges(gid, [Edge(id=eid, src=f["src"], dst=f["dst"], weight=f["weight"], rel=f["rel"])])
+        elif via == "deltas":
+            store.apply_deltas(gid, [{"op": "upsert_edge", "id": eid, "src": f["src"], "dst": f["dst"], "weight": f["weight"], "rel": f["rel"]}])
+        else:
+            e = store.get_graph(gid).edges[eid]
+            for k in ("src", "dst", "weight", "rel"):
+                setattr(e, k, f[k])
+            store.upsert_edges(gid, [e if via == "inplace" else dataclasses.replace(e)])
+    else:
+        _k, nid, f, via = wr
+        attrs = {"tags": list(f["tags"])} if f["tags"] is not None else {}
+        if via == "fresh":
+            store.upsert_nodes(gid, [Node(id=nid, label=f["label"], attrs=attrs)])
+        else:
+            n = store.get_graph(gid).nodes[nid]
+            n.label = f["label"]
+            if f["tags"] is not None:
+                n.attrs["tags"] = list(f["tags"])
+            else:
+                n.attrs.pop("tags", None)
+            store.upsert_nodes(gid, [n if via == "inplace" else dataclasses.replace(n, attrs=dict(n.attrs))])
+
+
+def _content_key(nodes, edges):
+    return (tuple((i, l, (tuple(t) if t is not None else None)) for i, l, t in nodes), tuple(tuple(e) for e in edges))
+
+
+def _subset_counters_ok(res, warm, cold_full, cold_singles):
+    """same reading as `_replayed_counters_ok`: a call reporting cache hits may carry the counters of just the graphs it
+    really walked (any per-graph subset sum of the cold counters); the deltas must be the cold ones"""
+    m = getattr(res, "metrics", None)
+    if warm[0] == "exc" or cold_full[0] == "exc" or warm[0] != cold_full[0] or not isinstance(m, dict):
+        return False
+    hits = m.get("cache_hits", 0)
+    if not (isinstance(hits, int) and hits > 0):
+        return False
+    per = []
+    for c in cold_singles():
+        if c[0] == "exc":
+            return False
+        per.append(dict(c[1]))
+    if any(not isinstance(p.get(k), int) for p in per for k in COUNTERS):
+        return False
+    for mask in itertools.product((0, 1), repeat=len(per)):
+        if tuple((k, sum(p[k] for p, on in zip(per, mask) if on)) for k in COUNTERS) == warm[1]:
+            return True
+    return False
+
+
+def run_edit_history(sc, dev, kind, entries, writes, cold=None):
+    """call (write call)+ on one store with the result cache on.  Returns (violations, n_calls, cold, result changed by the writes)"""
+    text, active = sc["text"], list(sc["active"])
+    if cold is None:
+        cold = {}
+    ctx_cold, P = make_ctx(dev)
+    ctx_w, _P = make_ctx(dev, cache=kind, cache_entries=entries)
+    others = list(sc["graphs"][1:])
+    n_calls = [0]
+
+    def cold_view(nodes, edges, act):
+        key = (_content_key(nodes, edges), tuple(act))
+        if key not in cold:
+            saved = (t1mod._T1_CACHE, t1mod._T1_CACHE_CFG, getattr(t1mod, "_T1_CACHE_KIND", None))
+            reset_caches()
+            OBS.reset(P["node_budget"])
+            try:
+                cold[key] = _t1_view(_call(ctx_cold, build_store([("g", list(nodes), list(edges))] + others), act, text))
+            finally:
+                t1mod._T1_CACHE, t1mod._T1_CACHE_CFG = saved[0], saved[1]
+                if hasattr(t1mod, "_T1_CACHE_KIND"):
+                    t1mod._T1_CACHE_KIND = saved[2]
+            n_calls[0] += 1
+        return cold[key]
+
+    where = " on edges=%s text=%r cfg=%s" % ([list(e) for e in sc["edges"]], text, dev)
+    if sc.get("nodes") is not None:
+        where += " nodes(id,label,tags)=%s" % ([list(n) for n in sc["nodes"]],)
+    nodes, edges = list(sc["graphs"][0][1]), list(sc["graphs"][0][2])
+    store = build_store(sc["graphs"])
+    V = []
+    first = last = None
+    reset_caches()
+    OBS.reset(P["node_budget"])
+    try:
+        for pos in range(len(writes) + 1):
+            via = "first-call"
+            if pos:
+                wr = writes[pos - 1]
+                via = "%s-%s" % (wr[0], wr[3])
+                nodes, edges = model_write(wr, nodes, edges)
+                try:
+                    store_write(store, "g", wr)
+                except Exception as e:  # noqa: BLE001 -- the engine's store misbehaves: a finding, not a harness problem
+                    V.append(("edit-history:%s:write-raises:%s" % (via, type(e).__name__),
+                              "store write %s raised %r after %d call(s)%s" % (wr, e, pos, where)))
+                    break
+            want = cold_view(nodes, edges, active)
+            if pos == 0:
+                first = want
+            last = want
+            before = snap_store(store)
+            res = _call(ctx_w, store, active, text)
+            warm = _t1_view(res)
+            n_calls[0] += 1
+            if snap_store(store) != before:
+                V.append(("store:modified", "graph store differs after call %d of the edit history %s (%s cache)%s" % (pos + 1, writes, kind, where)))
+                break
+            if warm != want and not _subset_counters_ok(res, warm, want, lambda: [cold_view(nodes, edges, [g]) for g in active]):
+                if warm[0] == "exc":
+                    cls = "raises:%s" % warm[1]
+                elif want[0] == "exc" or warm[0] != want[0]:
+                    cls = "deltas-differ-from-cold"
+                else:
+                    cls = "counters-differ-from-cold"
+                V.append(("edit-history:%s:%s" % (via, cls),
+                          "call %d of the history call%s (writes to graph g through the store API; %s cache, %d entries) returned %s, the same call "
+                          "cold on a fresh store with the written content (nodes %s, edges %s) returns %s%s"
+                          % (pos + 1, "".join(" / write %s / call" % (w,) for w in writes), kind, entries, warm,
+                             [list(n) for n in nodes], [list(e) for e in edges], want, where)))
+                break
+    finally:
+        reset_caches()
+    return V, n_calls[0], cold, (first != last)
+
+
+def edit_histories(alpha, tier: str, dev: dict):
+    hs = [[w] for w in alpha]
+    if tier == "thorough" and not dev:
+        hs += [[w1, w2] for w1 in alpha for w2 in alpha]      # two writes, a call after each (default configuration)
+    return hs
+
+
+def _edit_worker(chunk, st: Stats, tier):
+    install()
+    thorough = tier == "thorough"
+    devs = enum_devs(thorough, 1)
+    kinds = CACHE_KINDS_THOROUGH if thorough else CACHE_KINDS_QUICK
+    for edges, nodes, texts in chunk:
+        for text in texts:
+            scenes = {w: make_scene(edges, text, w, nodes) for w in ("one", "two")}
+            for dev in devs:
+                sc = scenes[dev.get("world", "one")]
+                alpha = edit_alphabet(sc, thorough)
+                cold = {}
+                for hist in edit_histories(alpha, tier, dev):
+                    for kind, entries in (kinds if len(hist) == 1 else CACHE_KINDS_QUICK):
+                        V, n_calls, cold, changed = run_edit_history(sc, dev, kind, entries, hist, cold)
+                        st.add("transitions", n_calls + len(hist))
+                        st.add("validated", len(hist) + 1 if not V else 1)
+                        st.add("states")
+                        st.add("edit_history_cases")
+                        st.distinct("outcomes", ("edit", bool(V), changed, hist[-1][0], hist[-1][3]))
+                        if changed:
+                            st.add("nontrivial")
+                            st.add("edit_histories_changing_the_result")
+                        for sig, what in V:
+                            st.violation(sig, what, dict(_case(edges, text, dev, nodes), edits=[list(w) for w in hist], cache=[kind, entries]))
+
+
+def _fanin_worker(chunk, st: Stats, tier):
+    install()
+    devs = [(dev,) + make_ctx(dev) for dev in enum_devs(tier == "thorough", 2 if tier == "thorough" else 1)]
+    for edges in chunk:
+        for text in FANIN_TEXTS:
+            scenes = {w: make_scene(edges, text, w, FANIN_NODES) for w in ("one", "two")}
+            for dev, ctx, P in devs:
+                sc = scenes[P["world"]]
+                res, store, before, state = execute(sc, ctx, P)
+                st.add("transitions")
+                st.add("states")
+                st.add("fanin_cases")
+                # anti-vacuity: an accumulator really ended at / beyond the budget on the negative side
+                if any(val <= -P["node_budget"] for acc in OBS.accs for val in dict(acc).values()):
+                    st.add("fanin_negative_saturation")
+                V, outcome, nontrivial = judge(sc, dev, P, res, store, before, state)
+                st.add("validated")
+                st.distinct("outcomes", ("fan-in", outcome))
+                if nontrivial:
+                    st.add("nontrivial")
+                for sig, what in tag_fanout(V, edges, text, dev, FANIN_NODES):
+                    st.violation(sig, what, _case(edges, text, dev, FANIN_NODES))
 
 
 def _history_worker(chunk, st: Stats, tier):
@@ -1256,6 +1537,17 @@ def run(run: Run) -> None:
     run.notes["call_histories"] = len(history_space(tier))
     run.notes["history_cache_kinds"] = [list(k) for k in (CACHE_KINDS_THOROUGH if run.thorough else CACHE_KINDS_QUICK)]
     run.pmap(_history_worker, hist_items, extra=(tier,), procs=NCPU)
+    run.notes["fanin_graphs"] = len(fanin_graphs())
+    run.pmap(_fanin_worker, fanin_graphs(), extra=(tier,))
+    if run.thorough:
+        edit_items = [(g, None, [t]) for n in (0, 1) for g in enum_graphs(n, [-0.5, 1.0], ["supports", "zzz"]) for t in TEXTS[1:]]
+    else:
+        edit_items = [(g, None, [t]) for g in enum_graphs(0, [1.0], ["supports"]) + enum_graphs(1, [1.0], ["supports"]) for t in TEXTS[1:]]
+    edit_items += [(g, ARM_NODES, ARM_TEXTS[:1]) for g in arm_graphs()[::7]]
+    run.notes["edit_history_scenes"] = len(edit_items)
+    run.notes["edit_history_writes_per_scene"] = "<= %d" % max(
+        len(edit_alphabet(make_scene(g, t[0], "one", n), run.thorough)) for g, n, t in edit_items)
+    run.pmap(_edit_worker, edit_items, extra=(tier,), procs=NCPU)
     run.rule += ("; the dimension 'par' is the entry path: graphs walked one after the other (default) or handed to the per-graph fan-out "
                  "behind the perf.parallel gate (enabled + t1 + max_workers 4" + ("; thorough also max_workers 1, where the gate stays closed" if run.thorough else "")
                  + "); plus fan-out leg: gate set AND two active graphs, every <=2-edge graph of the main leg x 5 texts x every config with <=1 "
@@ -1270,13 +1562,29 @@ def run(run: Run) -> None:
                  + "), same text and config (<=1 deviation, two graphs), <=1-edge graphs (weight 1, supports) x 4 seeding texts + 10 arm graphs: "
                  "each call's deltas must equal those of the same call made cold, and so must its six counters (a call reporting cache "
                  "hits may instead omit the cached graphs' work)")
+    run.rule += ("; plus fan-in: 5 nodes, three feeders a,b,c -> v -> w, every weight assignment over {-2,-1,1,2} on the 4 edges (256 graphs) x texts seeding "
+                 "{a,b}, {a,b,c}, {a,b,v} x every config with <=" + ("2 deviations" if run.thorough else "1 deviation") + ": v crosses the per-node budget from "
+                 "either side, or returns under it, between being queued and being popped; judged by the same three oracle layers"
+                 "; plus edit histories: call (write call)" + ("{1,2} (two writes: default configuration, 64-entry caches)" if run.thorough else "")
+                 + " on one store with the result cache ON (" + ("lru and bytes, 64 and 1 entries" if run.thorough else "lru and bytes, 64 entries")
+                 + "), config <=1 deviation, " + ("<=1-edge graphs over weights {-.5,1} x {supports,unknown}" if run.thorough else "<=1-edge graphs (weight 1, supports)")
+                 + " x 4 seeding texts + 10 arm graphs; writes go through the store's write API: the first edge re-assigned (same content / weight 0 / "
+                 "other relation / other target" + (" / weight .25 / other source" if run.thorough else "") + ") as a fresh Edge, as the live object edited in "
+                 "place and passed back to upsert_edges, as an equal copy of the edited live object, or via apply_deltas; a new edge (fresh / "
+                 "apply_deltas); a seed relabelled away, a non-seed relabelled or tagged with a word of the text (fresh Node / live object edited in place "
+                 "and passed back to upsert_nodes" + (" / equal copy" if run.thorough else "") + "); every call must equal the same call made cold on a fresh "
+                 "store built from the written content (deltas and six counters; a call reporting cache hits may omit the cached graphs' work)")
+    run.assume("edit histories: the store's write API means insert-or-replace by id (upsert_edges, upsert_nodes, apply_deltas upsert_edge); objects "
+               "handed out by get_graph() are live and may be edited by the caller, but an edit only counts once it has been passed back through "
+               "the write API - an in-place edit that is never written back is not part of the history alphabet (the store cannot see it), and "
+               "neither are writes that by-pass the store")
     run.assume("the per-graph fan-out (perf.parallel gate) is executed with its workers run one at a time in submission order: "
                "`ThreadPoolExecutor` inside clematis.engine.util.parallel is replaced by an inline pool that runs each submitted task at "
                "once and hands back a completed Future; the stage's task list, run_parallel, merge and unpacking code are the real ones. "
                "Thread schedules and completion orders of a real pool are C09's subject. A signature ending in '" + FANOUT_TAG + "' was not "
                "shown by the same case with the gate at its default (classification by a re-run, after the verdict)")
     run.assume("the stage result cache is disabled in the "
-               "single-call legs (t1.cache.enabled=false, perf cache sizes 0) and ON in the warm-cache and call-history legs, where the oracle "
+               "single-call legs (t1.cache.enabled=false, perf cache sizes 0) and ON in the warm-cache, call-history and edit-history legs, where the oracle "
                "is the differential twin 'same call, cold' on graph_deltas and the six work counters only (max_delta, cache_* and perf "
                "counters of a cache hit are left to C05); in the call-history leg a call that reports cache hits may also carry the "
                "counters of just the graphs it really walked (any per-graph subset sum of the cold counters) - the statement does not "
@@ -1304,6 +1612,13 @@ def replay(case):
         st = Stats()
         _warm_worker([([tuple(e) for e in case["edges"]], nodes, [case["text"]])], st, "thorough")
         return [(sg, w) for sg, (w, _c) in st.viol.items()]
+    if case.get("edits") is not None:
+        install()
+        edges = [tuple(e) for e in case["edges"]]
+        dev = dict(case["cfg"])
+        sc = make_scene(edges, case["text"], dev.get("world", "one"), nodes)
+        kind, entries = case["cache"]
+        return run_edit_history(sc, dev, kind, int(entries), [list(w) for w in case["edits"]])[0]
     if case.get("history"):
         install()
         edges = [tuple(e) for e in case["edges"]]
